@@ -40,6 +40,13 @@ CLAIMED = {
          "points thousands of images away included) and generic doubles; predicates on the implementation output solve the lattice combination exactly.",
          "Lean kernel + three standard axioms; harness/driver; IEEE rounding and Eigen's round() modelled (std::round).",
          "6/C02"),
+ "C01": ("Lean 4 proof over exact rationals (normalised weights, d/w force weights, mass sum, rejection iff a parent is beyond half the shortest height, "
+         "rigid translation, periodic-image invariance on top of the C02 theorems, convex-hull bounds) + exact correspondence through the real mapping pipeline",
+         "Theorems for all molecules, weights and boxes about a model of Map_Sphere::Initialize/Apply (and the pos/vel/force/mass part of the "
+         "ellipsoidal map); tied to the working tree by running CGEngine::LoadMoleculeType -> CreateCGTopology -> TopologyMap::Apply on generated molecules "
+         "(mapping XML parsed by the real code), each also with a parent moved by a lattice vector and with all atoms translated.",
+         "Lean kernel + three standard axioms; harness/driver; IEEE rounding not modelled; csg_map file formats are covered by C08, not here.",
+         "6/C01"),
 }
 REASONS = {}
 
